@@ -52,6 +52,13 @@ TABLE = {
                      "plus an oracle-free twin: program and world shifted away from falsy must return the same rows by index.",
                 technique="TLA+ denotational spec + TLC-generated programs replayed on falsy-rich data + TLC trace validation + metamorphic shift twin",
                 ref="7 C19"),
+    "C07": dict(text="TLC checks on the Lazy state machine (every qualifying set over a 4-element domain, every history of "
+                     "evaluate/next/close/drain to the depth bound) that the memoising-domain mechanism pulls exactly the prefix "
+                     "the promise prescribes and never re-pulls; exported histories and random walks are paired with G1 "
+                     "conditions, executed with a one-shot logging generator as domain, and TLC validates the pull log, "
+                     "predicate-call count and delivered results after every step.",
+                technique="TLA+ state machine (LazyOps/Lazy) model checked by TLC + exported histories replayed with a logging iterator + TLC trace validation",
+                ref="7 C07"),
 }
 
 REASON_PENDING = "check not built yet (work in progress; see DESIGN.md section 10)"
